@@ -58,6 +58,15 @@ class Faults(chan.ChannelScenario):
             elif ev.startswith("body:"):
                 S.env_events.append((lambda: b"100 Continue" in sockA.out, lambda d=ev[5:].encode(): sockA.client_send(d), "A:body"))
         self.start_io(S, srv, m, p.get("poll2", False))
+        made = []
+        orig_cls = srv.channel_class
+
+        def channel_class(*a, **kw):
+            ch = orig_cls(*a, **kw)
+            made.append(ch)
+            return ch
+
+        srv.channel_class = channel_class
 
         def fp():
             parts = []
@@ -66,7 +75,7 @@ class Faults(chan.ChannelScenario):
             return (tuple(parts), len(disp.queue), len(sockA.out), len(sockB.out), sockA.closed, sockB.closed, listener.closed, len(sockA.inq), sockA.reset)
 
         S.fp = fp
-        return dict(srv=srv, map=m, listener=listener, disp=disp, sockA=sockA, sockB=sockB, chB=chB, refB=refB, app=app)
+        return dict(srv=srv, map=m, listener=listener, disp=disp, sockA=sockA, sockB=sockB, chB=chB, refB=refB, app=app, made=made)
 
     def oracle(self, ctx, S, W, reason):
         v = []
@@ -111,6 +120,11 @@ class Faults(chan.ChannelScenario):
         if sockA.closed:
             if sockA.fd in m or sockA.fd in srv.active_channels:
                 v.append(("closed-but-registered", "connection A closed but still in the socket map / active_channels"))
+        for ch in ctx["made"]:
+            if ch.socket is None and ch.total_outbufs_len > 0:
+                v.append(("output-accepted-after-teardown", f"{ch.total_outbufs_len} bytes were accepted into the buffers of a torn-down connection (never released)"))
+        if ctx["app"].active != 0 and not any(t.state == "blocked" and t.bkind == "cv" for t in S.threads if t.name.startswith("waitress-")):
+            pass
         for lvl, msg in W.log:
             if lvl in ("ERROR", "CRITICAL") and "uncaptured python exception" in msg:
                 first = msg.strip().splitlines()[0]
@@ -135,6 +149,8 @@ def scenarios(tier):
     S.append(("A:get", dict(a_pre=get, max_faults=1), k))
     S.append(("A:big-response,window", dict(a_pre=big, a_window=40, a_events=["drain"], max_faults=1, sites=["recv", "send"]), k))
     S.append(("A:pipeline+expect", dict(a_pre=exp, a_events=["body:hello"], max_faults=1, sites=["recv", "send"]), k))
+    S.append(("A:big-response,watermark,window", dict(a_pre=big, a_window=40, a_events=["drain"], max_faults=1, sites=["send"], adj=dict(outbuf_high_watermark=20)), k))
+    S.append(("A:big-response,watermark,client-reset", dict(a_pre=big, a_window=40, a_events=["reset"], max_faults=0, adj=dict(outbuf_high_watermark=20)), k))
     S.append(("A:get,client-eof", dict(a_pre=get, a_events=["eof"], max_faults=0), k))
     S.append(("A:big,client-reset", dict(a_pre=big, a_window=40, a_events=["reset"], max_faults=0), k))
     S.append(("A:get,poll2", dict(a_pre=get, max_faults=1, poll2=True, sites=["recv", "send", "accept", "getsockopt"]), k))
